@@ -16,7 +16,9 @@ CONSTANTS MaxLen,        \* maximal content length
 
 NL == 0
 
-VARIABLES cs,            \* the case: [segs, B, M, cut, resume]
+VARIABLES cs,            \* the case: [segs, B, M, cut, resume, skip]  (skip: offsets_op=tail -- the job starts inside a line that must be skipped)
+          shouldSkip,    \* Job.shouldSkip
+          skipLine,      \* local of work(): loaded from Job.shouldSkip when the job is taken
           file, seg,     \* content written so far, number of appended segments
           pos,           \* position of the reader's descriptor
           curOffset, tail,                 \* Job.curOffset, Job.tail
@@ -25,7 +27,7 @@ VARIABLES cs,            \* the case: [segs, B, M, cut, resume]
           calls,         \* history: In-calls of the current round  <<[off, data]>>
           rounds         \* history: per finished round, its calls
 
-vars == <<cs, file, seg, pos, curOffset, tail, pc, lastOffset, accum, buf, scanned, readTotal, calls, rounds>>
+vars == <<cs, shouldSkip, skipLine, file, seg, pos, curOffset, tail, pc, lastOffset, accum, buf, scanned, readTotal, calls, rounds>>
 
 -----------------------------------------------------------------------------
 (* helpers *)
@@ -50,6 +52,11 @@ LinesFrom(c, start, from) ==
              \o LinesFrom(c, endOff + 1, from)
 
 Over(line, M) == M # 0 /\ Len(line) > M
+\* with skip: everything up to and including the first newline after the start position belongs to the skipped line
+From(c, resume, skip) == IF ~skip THEN resume
+                         ELSE IF \E i \in NLPositions(c) : i > resume
+                              THEN CHOOSE i \in NLPositions(c) : i > resume /\ \A j \in NLPositions(c) : j > resume => i <= j
+                              ELSE Len(c) + 1
 \* what must be handed over for content c, lines ending after `from`
 Expected(c, from, M, cut) ==
   LET all == LinesFrom(c, 1, from)
@@ -73,11 +80,13 @@ Init ==
   /\ \E c \in Contents :
        \E a \in 0..Len(c) : \E b \in a..Len(c) :
          \E B \in 1..(Len(c) + 1) : \E M \in Ms : \E cut \in (IF M = 0 THEN {FALSE} ELSE BOOLEAN) :
-           \E r \in {0} \cup {i \in NLPositions(c) : i <= a} :
+           \E sk \in BOOLEAN :
+           \E r \in (IF sk THEN 0..a ELSE {0} \cup {i \in NLPositions(c) : i <= a}) :
              cs = [segs |-> <<SubSeq(c, 1, a), SubSeq(c, a + 1, b), SubSeq(c, b + 1, Len(c))>>,
-                   B |-> B, M |-> M, cut |-> cut, resume |-> r]
+                   B |-> B, M |-> M, cut |-> cut, resume |-> r, skip |-> sk]
   /\ file = cs.segs[1] /\ seg = 1
   /\ pos = cs.resume /\ curOffset = cs.resume /\ tail = <<>>
+  /\ shouldSkip = cs.skip /\ skipLine = FALSE
   /\ pc = "idle"
   /\ lastOffset = 0 /\ accum = <<>> /\ buf = <<>> /\ scanned = 0 /\ readTotal = 0
   /\ calls = <<>> /\ rounds = <<>>
@@ -87,8 +96,9 @@ StartRound ==
   /\ pc = "idle"
   /\ lastOffset' = curOffset /\ accum' = tail /\ scanned' = 0 /\ readTotal' = 0 /\ buf' = <<>>
   /\ calls' = <<>>
+  /\ skipLine' = shouldSkip
   /\ pc' = "read"
-  /\ UNCHANGED <<cs, file, seg, pos, curOffset, tail, rounds>>
+  /\ UNCHANGED <<cs, shouldSkip, file, seg, pos, curOffset, tail, rounds>>
 
 (* n, err := reader.Read(readBuf) *)
 Read ==
@@ -103,27 +113,29 @@ Read ==
               /\ pos' = pos + n /\ readTotal' = readTotal + n
               /\ pc' = "scan"
               /\ UNCHANGED <<tail, curOffset>>
-  /\ UNCHANGED <<cs, file, seg, lastOffset, accum, scanned, calls, rounds>>
+  /\ UNCHANGED <<cs, shouldSkip, skipLine, file, seg, lastOffset, accum, scanned, calls, rounds>>
 
 (* one iteration of "for len(buf) != 0" *)
 Scan ==
   /\ pc = "scan"
   /\ IF buf = <<>>
-       THEN pc' = "afterbuf" /\ UNCHANGED <<buf, scanned, accum, calls>>
+       THEN pc' = "afterbuf" /\ UNCHANGED <<buf, scanned, accum, calls, shouldSkip, skipLine>>
        ELSE LET p == IndexNL(buf) IN
             IF p = 0
               THEN /\ scanned' = scanned + Len(buf)
                    /\ pc' = "afterbuf"
-                   /\ UNCHANGED <<buf, accum, calls>>
+                   /\ UNCHANGED <<buf, accum, calls, shouldSkip, skipLine>>
               ELSE LET line == SubSeq(buf, 1, p)
                        sc == scanned + p
-                       skipIt == cs.M # 0 /\ ~cs.cut /\ Len(accum) + Len(line) > cs.M
+                       skipIt == skipLine \/ (cs.M # 0 /\ ~cs.cut /\ Len(accum) + Len(line) > cs.M)
                        inBuf == IF accum # <<>> THEN accum \o line ELSE line
                    IN /\ buf' = SubSeq(buf, p + 1, Len(buf))
                       /\ scanned' = sc
                       /\ calls' = IF skipIt THEN calls
                                   ELSE Append(calls, [off |-> lastOffset + sc, data |-> inBuf])
                       /\ accum' = <<>>
+                      /\ skipLine' = FALSE
+                      /\ shouldSkip' = IF skipIt THEN FALSE ELSE shouldSkip      \* job.shouldSkip.Store(false)
                       /\ pc' = "scan"
   /\ UNCHANGED <<cs, file, seg, pos, curOffset, tail, lastOffset, readTotal, rounds>>
 
@@ -136,7 +148,7 @@ AfterBuf ==
        ELSE accum' = accum \o buf
   /\ buf' = <<>>
   /\ pc' = "read"
-  /\ UNCHANGED <<cs, file, seg, pos, curOffset, tail, lastOffset, scanned, readTotal, calls, rounds>>
+  /\ UNCHANGED <<cs, shouldSkip, skipLine, file, seg, pos, curOffset, tail, lastOffset, scanned, readTotal, calls, rounds>>
 
 (* EOF processed; the next append (if any) happens while the job is done *)
 EndRound ==
@@ -145,7 +157,7 @@ EndRound ==
   /\ IF seg < Len(cs.segs)
        THEN /\ file' = file \o cs.segs[seg + 1] /\ seg' = seg + 1 /\ pc' = "idle"
        ELSE /\ pc' = "done" /\ UNCHANGED <<file, seg>>
-  /\ UNCHANGED <<cs, pos, curOffset, tail, lastOffset, accum, buf, scanned, readTotal, calls>>
+  /\ UNCHANGED <<cs, shouldSkip, skipLine, pos, curOffset, tail, lastOffset, accum, buf, scanned, readTotal, calls>>
 
 Next == StartRound \/ Read \/ Scan \/ AfterBuf \/ EndRound
 
@@ -159,7 +171,7 @@ TypeOK == pc \in {"idle", "read", "scan", "afterbuf", "eof", "done"}
 \* C06: at every EOF the calls made so far (all rounds) are exactly the expected lines of the
 \* content written so far
 LinesExactlyOnce ==
-  pc = "eof" => SeqOK(Flatten(rounds) \o calls, Expected(file, cs.resume, cs.M, cs.cut), cs.M)
+  pc = "eof" => SeqOK(Flatten(rounds) \o calls, Expected(file, From(file, cs.resume, cs.skip), cs.M, cs.cut), cs.M)
 
 \* nothing is handed over that is not complete: every call ends with the newline and never contains one inside
 CallsAreLines ==
@@ -171,7 +183,7 @@ CallsAreLines ==
 \* the job's offset equals the number of bytes consumed, and the tail is what follows the last newline
 \* (unless a size limit interfered)
 TailIsRemainder ==
-  pc = "eof" /\ cs.M = 0 =>
+  pc = "eof" /\ cs.M = 0 /\ ~cs.skip =>
      /\ curOffset = Len(file)
      /\ LET nls == NLPositions(file)
             lastNL == IF nls = {} \/ \A i \in nls : i <= cs.resume THEN cs.resume
@@ -186,11 +198,12 @@ AccumBounded == cs.M # 0 => Len(accum) <= cs.M + cs.B + cs.B
 ExpectedRound(k) ==
   \* expected new calls of round k = expected(content after k segments) minus expected(after k-1)
   LET ck == Flatten(SubSeq(cs.segs, 1, k))
-      ek == Expected(ck, cs.resume, cs.M, cs.cut)
-      ep == IF k = 1 THEN <<>> ELSE Expected(Flatten(SubSeq(cs.segs, 1, k - 1)), cs.resume, cs.M, cs.cut)
+      ek == Expected(ck, From(ck, cs.resume, cs.skip), cs.M, cs.cut)
+      cp == Flatten(SubSeq(cs.segs, 1, k - 1))
+      ep == IF k = 1 THEN <<>> ELSE Expected(cp, From(cp, cs.resume, cs.skip), cs.M, cs.cut)
   IN SubSeq(ek, Len(ep) + 1, Len(ek))
 
-ExportRec == [segs |-> cs.segs, B |-> cs.B, M |-> cs.M, cut |-> cs.cut, resume |-> cs.resume,
+ExportRec == [segs |-> cs.segs, B |-> cs.B, M |-> cs.M, cut |-> cs.cut, resume |-> cs.resume, skip |-> cs.skip,
               exp |-> [k \in 1..Len(cs.segs) |->
                          [i \in 1..Len(ExpectedRound(k)) |->
                             [off |-> ExpectedRound(k)[i].off, data |-> ExpectedRound(k)[i].data,
